@@ -1212,8 +1212,8 @@ class _ElementListProperty(_ElementBase, ABC):
         :return:
         """
         value: list | None = self.get_py_value_from_node(instance, node)
-        if value is not None:
-            setattr(instance, self._local_var_name, value)
+        # "no value in the node" is the empty list; never keep what the instance held before
+        setattr(instance, self._local_var_name, value if value is not None else [])
 
 
 class SubElementListProperty(_ElementListProperty):
